@@ -109,8 +109,24 @@ func (fr *Frame) guardAccess(l *Loc, write bool, pos token.Pos) {
 // guardMapAccess: an operation on the contents of a map held in a guarded field.
 func (fr *Frame) guardMapAccess(m ssa.Value, write bool, pos token.Pos) {
 	obj, n, field := fr.fieldOf(m)
+	what := "[]"
+	// a map (or slice) taken out of a guarded map is part of the same guarded structure:
+	// `chs := t.metadata[alias]; ... chs[node]` needs the lock for the second lookup too
+	for depth := 0; n == nil && depth < 4; depth++ {
+		switch x := m.(type) {
+		case *ssa.Extract:
+			m = x.Tuple
+			continue
+		case *ssa.Lookup:
+			m = x.X
+			what += "[]"
+			obj, n, field = fr.fieldOf(m)
+			continue
+		}
+		break
+	}
 	if n != nil {
-		fr.guardCheck(obj, n, field, write, pos, "[]")
+		fr.guardCheck(obj, n, field, write, pos, what)
 	}
 }
 
